@@ -661,6 +661,51 @@ package multiplex
 //@   ensures txBucket: ret0.txtb != nil && uf("tb_capacity", ret0.txtb) == int(txRate)
 //@   ensures counters: ret0.rx != nil && ret0.tx != nil && ret0.rx != ret0.tx && *ret0.rx == 0 && *ret0.tx == 0
 
+// The limited valve's methods (C16, C19): each direction has ITS bucket and ITS counter. rx = what the
+// server receives from the client, tx = what it sends. A wait draws the tokens from the bucket of that
+// direction only; Add* adds to the counter of that direction only; Get* reads it; Nullify returns both
+// and leaves both at zero (swap, so nothing counted in between is lost or reported twice).
+//@ import "github.com/juju/ratelimit"
+//@ func (*github.com/juju/ratelimit.Bucket).Wait
+//@   flag trusted
+//@   ensures drawn: ghostget("tb_waited", recv) == old(ghostget("tb_waited", recv)) + int(count)
+//@   ensures othersKept: forall b *ratelimit.Bucket :: b != recv ==> ghostget("tb_waited", b) == old(ghostget("tb_waited", b))
+//@   modifies heap(GU_tb_waited)
+//@ ghost func valveOK(v *LimitedValve) bool { return v != nil && v.rxtb != nil && v.txtb != nil && v.rxtb != v.txtb && v.rx != nil && v.tx != nil && v.rx != v.tx }
+//@ func (*LimitedValve).rxWait
+//@   requires valveOK(v)
+//@   ensures rxBucketOnly: ghostget("tb_waited", v.rxtb) == old(ghostget("tb_waited", v.rxtb)) + n && ghostget("tb_waited", v.txtb) == old(ghostget("tb_waited", v.txtb))
+//@   modifies heap(GU_tb_waited)
+//@ func (*LimitedValve).txWait
+//@   requires valveOK(v)
+//@   ensures txBucketOnly: ghostget("tb_waited", v.txtb) == old(ghostget("tb_waited", v.txtb)) + n && ghostget("tb_waited", v.rxtb) == old(ghostget("tb_waited", v.rxtb))
+//@   modifies heap(GU_tb_waited)
+//@ func (*LimitedValve).AddRx
+//@   requires valveOK(v)
+//@   ensures rxOnly: *v.tx == old(*v.tx) && (-9223372036854775808 <= old(int(*v.rx)) + int(n) && old(int(*v.rx)) + int(n) <= 9223372036854775807 ==> int(*v.rx) == old(int(*v.rx)) + int(n))
+//@   modifies *v.rx
+//@ func (*LimitedValve).AddTx
+//@   requires valveOK(v)
+//@   ensures txOnly: *v.rx == old(*v.rx) && (-9223372036854775808 <= old(int(*v.tx)) + int(n) && old(int(*v.tx)) + int(n) <= 9223372036854775807 ==> int(*v.tx) == old(int(*v.tx)) + int(n))
+//@   modifies *v.tx
+//@ func (*LimitedValve).GetRx
+//@   requires valveOK(v)
+//@   ensures readsRx: ret0 == *v.rx
+//@ func (*LimitedValve).GetTx
+//@   requires valveOK(v)
+//@   ensures readsTx: ret0 == *v.tx
+//@ func (*LimitedValve).Nullify
+//@   requires valveOK(v)
+//@   ensures moved: ret0 == old(*v.rx) && ret1 == old(*v.tx) && *v.rx == 0 && *v.tx == 0
+//@   modifies *v.rx, *v.tx
+// the unlimited valve counts nothing and never waits
+//@ func (*UnlimitedValve).GetRx
+//@   ensures ret0 == 0
+//@ func (*UnlimitedValve).GetTx
+//@   ensures ret0 == 0
+//@ func (*UnlimitedValve).Nullify
+//@   ensures ret0 == 0 && ret1 == 0
+
 // closeSession (C12 teardown): at most one caller wins the CAS; under streamsM every stream that is
 // still open is marked closed, its receive buffer is closed (blocked readers wake, see the pipes'
 // Close contracts) and it is counted out - exactly one decrement per receive buffer closed.
